@@ -102,16 +102,28 @@ func zeroCosts(n int) []int {
 
 type divergence struct{ msg string }
 
+// fatalDivergence reports uncontrolled nondeterminism (machinery error, never a
+// VIOLATION).  It exits directly because the caller may be any scheduled
+// goroutine.
+func (c *Ctx) fatalDivergence(msg string) {
+	name := "?"
+	if c.scen != nil {
+		name = c.scen.Name
+	}
+	fmt.Fprintf(os.Stderr, "MACHINERY: %s in scenario %s prefix=%v choices-so-far=%v\n", msg, name, c.prefix, c.choices)
+	os.Exit(3)
+}
+
 func (c *Ctx) choose(kind string, n int, costs []int) int {
 	if n <= 0 {
-		panic(divergence{fmt.Sprintf("Choose(%s,%d): no alternatives", kind, n)})
+		c.fatalDivergence(fmt.Sprintf("Choose(%s,%d): no alternatives", kind, n))
 	}
 	i := len(c.choices)
 	ch := 0
 	if i < len(c.prefix) {
 		ch = c.prefix[i]
 		if ch < 0 || ch >= n {
-			panic(divergence{fmt.Sprintf("replay divergence at point %d (%s): recorded choice %d but only %d alternatives", i, kind, ch, n)})
+			c.fatalDivergence(fmt.Sprintf("replay divergence at point %d (%s): recorded choice %d but only %d alternatives", i, kind, ch, n))
 		}
 	}
 	if n == 1 {
@@ -317,7 +329,7 @@ func (e *explorer) runOnce(prefix []int, keepLog bool, history []int) (c *Ctx) {
 	}()
 	e.sc.Run(c)
 	if len(c.choices) < len(prefix) {
-		panic(divergence{fmt.Sprintf("replay divergence: execution ended after %d choice points, prefix has %d", len(c.choices), len(prefix))})
+		c.fatalDivergence(fmt.Sprintf("replay divergence: execution ended after %d choice points, prefix has %d", len(c.choices), len(prefix)))
 	}
 	return c
 }
@@ -637,7 +649,7 @@ func Main(property string, gen func(cfg *Config, emit func(Scenario))) {
 				fmt.Fprintf(os.Stderr, "[%s] bound %d: %d executions (cum %d) distinct=%d\n", sc.Name, b, e.execs, st.Executions, st.Distinct)
 			}
 		}
-		if completed < st.BoundCompleted {
+		if sc.Bound > 0 && completed < st.BoundCompleted {
 			st.BoundCompleted = completed
 		}
 		if sc.Bound > st.BoundMax {
